@@ -307,6 +307,12 @@ LoadMeshErr HSolver::LoadMesh(bool deleteFiles)
             }
             return MISSINGMATPROPS;
 		}
+		if (!(elm.lbl < (int)labellist.size()))
+		{
+			WarnMessage("An element refers to a block label that the problem does not have.\n");
+			fclose(fp);
+			return ELMLABELTOOBIG;
+		}
 		// look up block type out of the list of block labels
 		elm.blk=labellist[elm.lbl].BlockType;
 
